@@ -20,6 +20,7 @@ import (
 	"fmt"
 	"math"
 	"os"
+	"regexp"
 	"runtime"
 	"strconv"
 	"strings"
@@ -1012,6 +1013,9 @@ func exec(c px.Context, op string, args []sx.Sexp) core.Result {
 			}
 		}()
 	})
+	if op == "back" && len(args) == 2 {
+		return execBack(c, args[0].MustStr(), args[1].MustInt())
+	}
 	// fmtf = fmt with an oracle of fmt.Sprintf results for the Lean driver (ignored here)
 	if !((op == "fmt" && len(args) == 2) || (op == "fmtf" && len(args) == 4)) {
 		return core.Result{Out: "bad-op", Pred: "FAIL harness-bad-op " + op}
@@ -1154,6 +1158,64 @@ func exec(c px.Context, op string, args []sx.Sexp) core.Result {
 	}
 	return res("ok")
 }
+
+// back <directive> <int>: render the integer, then read the text back with the Integer constructor and the radix of
+// the letter: new(Integer, text, radix).  out: `int N` | `reported CODE` | `render <outcome>` when rendering gave no text
+func execBack(c px.Context, directive string, i int64) core.Result {
+	d := parseDir(directive)
+	v := types.WrapInteger(i)
+	out := deadline(func() string {
+		return textOut(px.ToString2(v, px.NewFormatContext(types.DefaultIntegerType(), px.NewFormat(directive), px.NewIndentation(false, 0))))
+	})
+	text, isT := isText(out)
+	tags := []string{"op:back"}
+	if !isT {
+		return core.Result{Out: "render " + out, Pred: "n/a", Tags: tags}
+	}
+	radix := int64(10)
+	switch d.letter {
+	case 'x', 'X':
+		radix = 16
+	case 'o':
+		radix = 8
+	case 'b', 'B':
+		radix = 2
+	}
+	res := deadline(func() string {
+		r := px.New(c, types.DefaultIntegerType(), types.WrapString(text), types.WrapInteger(radix))
+		if iv, ok := r.(px.Integer); ok {
+			return "int " + strconv.FormatInt(iv.Int(), 10)
+		}
+		return "other"
+	})
+	r := core.Result{Out: res, Pred: "ok", NonTrivial: !d.plain(), Tags: tags}
+	if res == "timeout" {
+		return core.Fail(res, "hang", "the Integer constructor did not finish within 2s")
+	}
+	if res == "fault" {
+		return core.Fail(res, "fault", "the Integer constructor raised a runtime fault")
+	}
+	if !d.ok || strings.IndexByte("dxXobB", d.letter) < 0 || d.width >= 0 || d.space || (i == 0 && d.prec == 0) {
+		r.Pred = "n/a" // padded, blank-signed or empty renderings are not what the constructor is documented to read
+		return r
+	}
+	if res != "int "+strconv.FormatInt(i, 10) {
+		t := strings.TrimLeft(text, "+-")
+		prefixed := len(t) > 1 && t[0] == '0' && strings.IndexByte("xXbB", t[1]) >= 0
+		cls := "ctor-roundtrip"
+		if prefixed || !convertiblePattern.MatchString(text) {
+			// the constructor hands the text to strconv.ParseInt with the radix, which takes no prefix, and its
+			// signature (Convertible) admits hexadecimal digits only after a prefix and leading zeros only before octal
+			// digits (known finding C20-integer-ctor-text)
+			cls = "ctor-radix-text"
+		}
+		return core.Fail(res, cls, oneLine(fmt.Sprintf("%s of %d renders %q; new(Integer, %q, %d) gives %s", directive, i, text, text, radix, res)))
+	}
+	return r
+}
+
+// the Convertible pattern of the Integer constructor's signature, as documented in types/types.go (IntegerPattern)
+var convertiblePattern = regexp.MustCompile(`\A[+-]?\s*(?:(?:0|[1-9]\d*)|(?:0[xX][0-9A-Fa-f]+)|(?:0[0-7]+)|(?:0[bB][01]+))\z`)
 
 func oneLine(s string) string {
 	return strings.Map(func(r rune) rune {
